@@ -68,6 +68,7 @@ void Arena::init(size_t bytes)
 void Arena::run_begin(size_t skip_pages, size_t sub)
 {
         t_stack_word = 0;
+        giant_source_reset();
         run_end();
         sub_off = sub % 64; // 0 in every ordinary run; the address twin shifts all buffers by a few bytes inside their pages
         pos = (skip_pages % 4096) * PG; // every run starts from the arena base plus a plan-chosen displacement
@@ -489,4 +490,30 @@ bool libinfo_init()
         munmap(m, st.st_size);
         std::stable_sort(g_lib.syms.begin(), g_lib.syms.end(), [](const LibSym &a, const LibSym &b) { return a.addr < b.addr; });
         return !g_lib.syms.empty();
+}
+
+// ---- giant source (mem.h)
+static uint8_t *g_giant = nullptr;
+static size_t g_giant_used = 0;
+static const size_t GIANT_SIZE = ((size_t) 1 << 32) + ((size_t) 1 << 20);
+uint8_t *giant_source(size_t used)
+{
+        if (!g_giant) {
+                void *want = (void *) 0x3d0000000000ULL;
+                void *p = mmap(want, GIANT_SIZE + 4096, PROT_READ | PROT_WRITE, MAP_PRIVATE | MAP_ANONYMOUS | MAP_NORESERVE | MAP_FIXED_NOREPLACE, -1, 0);
+                if (p == MAP_FAILED)
+                        return nullptr;
+                g_giant = (uint8_t *) p;
+                mprotect(g_giant + GIANT_SIZE, 4096, PROT_NONE);
+        }
+        if (used > g_giant_used)
+                g_giant_used = used;
+        return g_giant;
+}
+void giant_source_reset()
+{
+        if (g_giant && g_giant_used) {
+                madvise(g_giant, (g_giant_used + 4095) & ~(size_t) 4095, MADV_DONTNEED);
+                g_giant_used = 0;
+        }
 }
